@@ -58,3 +58,25 @@ Definition all_joined (c : cfg) (st : pst) : Prop :=
     joined (ws st w) = true /\ dead (phase (ws st w)) = true /\ (mp c = true -> terminated (ws st w) = true).
 Definition no_live_worker (st : pst) : Prop := forall w, alive (phase (ws st w)) = false.
 Definition tasks_are_the_started_workers (st : pst) : Prop := forall w, spawned (phase (ws st w)) = true <-> In w (tasks st).
+
+(* ---- (5) a run in which nothing fails does not raise; a late DROP_COMPLETE taken by a poll only leaves its queue ---- *)
+(* the labels at which something fails: a worker's execution / upload raises, or a crash point of the main thread fires
+   (CResult, CPrepare, CSend, CArtifacts).  NOT among them: a poll that takes a DROP_COMPLETE (crash point CPoll before
+   repair 10693fe), a timed-out wait, ODropAll false and WDropCrash (both swallowed by the code, see (2) and (4)) *)
+Definition crash_label (l : label) : bool :=
+  match l with WFail _ _ | OCollect false | OExec false | OSendFail | OArtifacts false => true | _ => false end.
+Definition fault_free (tr : list label) : Prop := forall l, In l tr -> crash_label l = false.
+
+Fixpoint polled_dones (taken : list (nat * rmsg)) : list nat :=
+  match taken with [] => [] | (_, RDone s) :: t => s :: polled_dones t | (_, RDropComplete) :: t => polled_dones t end.
+
+(* two worker states that differ at most in the result queue *)
+Definition same_but_resq (x y : wst) : Prop :=
+  phase x = phase y /\ cmdq x = cmdq y /\ trk x = trk y /\ terminated x = terminated y /\ joined x = joined y.
+
+(* two protocol states that agree on everything except worker w, where st' still has the DROP_COMPLETE at the head of the
+   worker's lane that st has lost *)
+Definition differ_by_ack (st st' : pst) (w : nat) : Prop :=
+  o st = o st' /\ pc st = pc st' /\ sc st = sc st' /\ tasks st = tasks st' /\ flight st = flight st' /\ sent st = sent st' /\
+  replies st = replies st' /\ dropfail st = dropfail st' /\ undelivered st = undelivered st' /\ (forall k, k <> w -> ws st k = ws st' k) /\
+  same_but_resq (ws st w) (ws st' w) /\ requeued (ws st w) = requeued (ws st' w) /\ resq (ws st' w) = RDropComplete :: resq (ws st w).
